@@ -4,7 +4,7 @@
 import json, os, shutil, subprocess, sys, tempfile, glob
 from concurrent.futures import ThreadPoolExecutor
 VERIF, REPO = '/verif', '/repo'
-src = sys.argv[1]
+src = os.path.abspath(sys.argv[1])
 props = [json.loads(l)['id'] for l in open(os.path.join(VERIF, 'properties.jsonl'))]
 cases = sorted(glob.glob(os.path.join(src, '*', 'patch.diff')))
 
